@@ -246,7 +246,11 @@ func runTwin(seed int64, rep *lib.Report, r *lib.Rand, n int) {
 					t.both(Op{Kind: "redelegate", A: who, V: v, W: val0 + r.Intn(3), Amt: fx(1 + int64(r.Intn(int(tok))))})
 				}
 			case c < 9:
-				t.both(Op{Kind: "block", Dt: 21*day + int64(r.Intn(1000))*sec})
+				if r.Chance(40) {
+					t.both(Op{Kind: "slash", V: val0 + r.Intn(3), Dt: 1})
+				} else {
+					t.both(Op{Kind: "block", Dt: 21*day + int64(r.Intn(1000))*sec})
+				}
 			case c < 10:
 				t.both(Op{Kind: "block", Dt: hour + int64(r.Intn(int(5*day/sec)))*sec})
 			default:
